@@ -235,7 +235,10 @@ var funcmap = FuncMap{
 					tmp += val.val[1 : len(val.val)-1]
 				}
 			}
-			tmp = strings.TrimSpace(tmp)
+			if attr == "class" {
+				// only the merged class list is normalised; any other value is the author's or the data's and stays as it is
+				tmp = strings.TrimSpace(tmp)
+			}
 			if tmp == "" && attr == "class" {
 				continue renderloop
 			}
